@@ -8,12 +8,13 @@ const stance = "Static analysis of /repo's current source (go/packages + go/type
 func init() {
 	defProp(&Prop{ID: "C01", Title: "Keyspace is a sequential typed map",
 		Explanation: stance + "Decided clause: a generic/string command applied to a value of the wrong type fails with an error instead of panicking or silently succeeding (type assertions on store values are comma-ok with an error exit), and constant indices into the command are inside every possible length.",
-		Decides:     []string{"WT wrong-type discipline of the generic and string handlers", "AR constant index safety of the generic and string handlers and key functions", "NUM every numeric conversion of the family parses/prints base 10, 64 bits", "X4 a multi-key write gives each key its own deadline"},
+		Decides:     []string{"WT wrong-type discipline of the generic and string handlers", "AR constant index safety of the generic and string handlers and key functions", "NUM every numeric conversion of the family parses/prints base 10, 64 bits", "X4 a multi-key write gives each key its own deadline", "FA the write that can be refused is the first keyspace mutation of the command (a command that fails has changed nothing)"},
 		NotCovered:  []string{"last-write-wins, counter arithmetic, byte-for-byte preservation, option combinations of SET, deadlines carried across SET/RENAME (value-level; no sound static argument in reach)"},
 		Rules: []RuleRef{
 			{ID: "WT", Scope: []string{"internal/modules/generic.", "internal/modules/string."}, Floor: 15},
 			{ID: "AR", Scope: []string{"internal/modules/generic.", "internal/modules/string."}, Floor: 55},
 			{ID: "NUM", Scope: []string{"internal/modules/generic.", "internal/modules/string."}, Floor: 10},
+			{ID: "FA", Scope: []string{"internal/modules/generic.", "internal/modules/string."}, Floor: 10},
 			{ID: "X4"},
 		},
 	})
@@ -63,9 +64,9 @@ func init() {
 	})
 	defProp(&Prop{ID: "C08", Title: "Max-memory policy",
 		Explanation: stance + "Decided clauses: under noeviction every store write is preceded by the admission test, which refuses exactly when a limit is configured and usage >= limit (A1); evictions happen only at/above the limit and every eviction loop re-tests the limit before the next eviction (A2); volatile policies draw candidates only from keys with a deadline (A3); the heap comparators put the least recently / least frequently used entry first (A4); the LRU and LFU caches maintain the same bookkeeping (SB); random indices are applied to the collection that bounded them (IA); createDatabase / deleteKey / Flush cover every per-database structure and a flushed cache heap is empty (PD).",
-		Decides:     []string{"A1 admission", "A2 eviction bounds", "A3 volatile candidates", "A4 comparator orientation", "SB sibling caches", "IA index agreement", "PD per-database structures"},
+		Decides:     []string{"A1 admission", "A2 eviction bounds", "A3 volatile candidates", "A4 comparator orientation", "SB sibling caches", "IA index agreement", "PD per-database structures", "FA a write refused at the limit has not already changed the dataset (the refusable write is the command's first mutation; under noeviction no key is removed by a refused command)", "N5 an eviction victim is deleted in the database whose cache it was taken from"},
 		NotCovered:  []string{"which concrete key is evicted for a given history", "the size function's figures", "timing of the asynchronous cache updates"},
-		Rules:       []RuleRef{{ID: "A1"}, {ID: "A2"}, {ID: "A3"}, {ID: "A4"}, {ID: "SB"}, {ID: "IA"}, {ID: "PD"}},
+		Rules:       []RuleRef{{ID: "A1"}, {ID: "A2"}, {ID: "A3"}, {ID: "A4"}, {ID: "SB"}, {ID: "IA"}, {ID: "PD"}, {ID: "FA"}, {ID: "N5"}},
 		Tech:        "static analysis: must-facts on CFG edges, loop-cycle re-test check, abstract evaluation of comparators over {<,=,>}, field-write set comparison of sibling implementations",
 	})
 	defProp(&Prop{ID: "C09", Title: "Log rewrite",
@@ -91,9 +92,9 @@ func init() {
 	})
 	defProp(&Prop{ID: "C12", Title: "Wire protocol",
 		Explanation: stance + "Decided clauses: the handler the dispatcher invokes is non-nil for every registered command (T1); constant indices into the command are inside every possible length (AR); every reply returned with a nil error ends in CRLF on every path, bulk headers are len() of their payload and no client-controlled string is written inside a simple string or error frame (R1-R3); a panic in a handler is recovered on the connection goroutine and in the raft FSM (W5); after a command was handled the connection loop writes a reply or error line before reading the next message (CL).",
-		Decides:     []string{"T1 complete dispatch", "AR constant index safety over all handlers, key functions and their helpers", "R1 every successful reply ends in CRLF on every path", "R2 bulk headers carry len() of their payload", "R3 no client data inside simple strings / errors", "W5 handler panics are contained on the connection goroutine and in the raft FSM", "CL every handled command is answered before the next read"},
+		Decides:     []string{"T1 complete dispatch", "AR constant index safety over all handlers, key functions and their helpers", "R1 every successful reply ends in CRLF on every path", "R2 bulk headers carry len() of their payload", "R3 no client data inside simple strings / errors", "W5 handler panics are contained on the connection goroutine and in the raft FSM", "CL every handled command is answered before the next read", "SC one confirmation frame per channel named in SUBSCRIBE/PSUBSCRIBE"},
 		NotCovered:  []string{"framing of pipelined or split input (byte-stream behaviour)", "data-dependent indices", "array-header/element-count agreement", "agreement of the embedded API's parser with the reply"},
-		Rules:       []RuleRef{{ID: "T0"}, {ID: "T1"}, {ID: "AR"}, {ID: "R1"}, {ID: "R2"}, {ID: "R3"}, {ID: "W5"}, {ID: "CL"}},
+		Rules:       []RuleRef{{ID: "T0"}, {ID: "T1"}, {ID: "AR"}, {ID: "R1"}, {ID: "R2"}, {ID: "R3"}, {ID: "W5"}, {ID: "CL"}, {ID: "SC"}},
 	})
 	defProp(&Prop{ID: "C13", Title: "Read-only commands are pure",
 		Explanation: stance + "Decided: no handler of a read-only command writes through any reference it obtained from the store, on any call path (values are handed out by reference, so this is the mechanism by which a read could change what later commands observe) (P1); a value stored by SetValues is never a store-derived reference read under another key that stays in place, so a STORE destination never shares structure with a source (P2).",
@@ -148,23 +149,23 @@ func init() {
 	})
 	defProp(&Prop{ID: "C18", Title: "Pub/Sub",
 		Explanation: stance + "Decided clauses: between taking a message from a channel's queue and writing it to a subscriber's socket no goroutine is started, so messages of one channel reach a subscriber in queue order (S1); the channel table and the subscriber tables are accessed only under their locks (L1); the replies of UNSUBSCRIBE / PUBSUB CHANNELS / NUMSUB are CRLF-terminated with correct bulk headers (R1, R2).",
-		Decides:     []string{"S1 delivery by the dequeuing goroutine", "L1 pub/sub tables under their locks", "R1/R2 reply framing of the pubsub package"},
+		Decides:     []string{"S1 delivery by the dequeuing goroutine", "L1 pub/sub tables under their locks", "R1/R2 reply framing of the pubsub package", "SC every channel named in SUBSCRIBE/PSUBSCRIBE gets a confirmation frame (the write is unconditional, or guarded by a predicate whose summary is 'always true')"},
 		NotCovered:  []string{"exactly-once delivery, 'subscribed at the time of publish' (delivery is asynchronous by design)", "running counts in confirmations (UNSUBSCRIBE iterates a Go map: order and indices are value-level)"},
-		Rules:       []RuleRef{{ID: "S1"}, {ID: "L1", Scope: []string{"pubsub."}, Floor: 8}, {ID: "R1", Scope: []string{"internal/modules/pubsub."}, Floor: 5}, {ID: "R2", Scope: []string{"internal/modules/pubsub."}, Floor: 3}},
+		Rules:       []RuleRef{{ID: "S1"}, {ID: "L1", Scope: []string{"pubsub."}, Floor: 8}, {ID: "R1", Scope: []string{"internal/modules/pubsub."}, Floor: 5}, {ID: "R2", Scope: []string{"internal/modules/pubsub."}, Floor: 3}, {ID: "SC"}},
 	})
 	defProp(&Prop{ID: "C19", Title: "Reported memory usage",
-		Explanation: stance + "Decided clauses: the memory counter is written only by the functions that add/replace/remove/clear store entries (M1); each such function pairs the store mutation with the matching adjustment: += new size and -= replaced size on writes, -= on removal, -= all on clear (M2); handlers that grow or shrink a stored object in place, which the counter cannot follow, are inventoried (P3).",
+		Explanation: stance + "Decided clauses: the memory counter is written only by the functions that add/replace/remove/clear store entries (M1); each such function pairs the store mutation with the matching adjustment: += new size and -= replaced size on writes, -= on removal and only for an entry that is in the store, -= all on clear (M2); handlers that grow or shrink a stored object in place, which the counter cannot follow, are inventoried (P3).",
 		Decides:     []string{"M1 accounting ownership", "M2 accounting pairing", "P3 in-place mutators (reported per handler)"},
 		NotCovered:  []string{"the size function's figures", "equality of the figure with a fresh instance holding the same dataset (value-level)"},
-		Rules:       []RuleRef{{ID: "M1"}, {ID: "M2"}, {ID: "P3"}, {ID: "GM"}},
+		Rules:       []RuleRef{{ID: "M1"}, {ID: "M2"}, {ID: "P3"}, {ID: "GM"}, {ID: "N5"}},
 	})
 	defProp(&Prop{ID: "C20", Title: "Logical databases",
 		Explanation: stance + "Decided clauses: every read of the request's database from the context is reached only with contexts that carry it (N1); every index into a per-database structure is the request's database, a loop variable over the databases or a parameter (N2); the database travels unchanged into the AOF append, the replicated request, the FSM's handler context and the AOF replay (D2 e, N3); the AOF writer logs a SELECT marker before a command for another database (D3); the maintenance functions cover every per-database structure (PD).",
-		Decides:     []string{"N1 context must-keys", "N2 per-database indexing", "N3 + D2(e) database identity across AOF / raft", "D3 SELECT marker", "PD per-database structures"},
+		Decides:     []string{"N1 context must-keys", "N2 per-database indexing", "N3 + D2(e) database identity across AOF / raft", "D3 SELECT marker", "PD per-database structures", "N5 a key taken from one database's structures is handed on only with a context that carries that database", "D3 the log's record of its current database starts unknown and survives truncation; D7 the reader parses every marker the writer can emit"},
 		NotCovered:  []string{"FLUSHDB vs FLUSHALL argument choice, SWAPDB semantics (value-level)", "behaviour across restarts"},
 		Rules: []RuleRef{{ID: "N1"}, {ID: "N2"}, {ID: "N3"}, {ID: "D2", Scope: []string{"|e:log-database"}, Floor: 1},
-			{ID: "D3", Scope: []string{"select-marker", "current-database"}, Floor: 2}, {ID: "D7", Scope: []string{"replay-database"}, Floor: 1}, {ID: "PD", Not: []string{"heap-emptied"}, Floor: 12}, {ID: "R2", Scope: []string{"internal/aof"}, Floor: 2},
-			{ID: "X3", Scope: []string{"internal.FilterExpiredKeys"}, Floor: 2}, {ID: "N4"}},
+			{ID: "D3", Scope: []string{"select-marker", "current-database", "database-record", "truncate-keeps"}, Floor: 4}, {ID: "D7", Scope: []string{"replay-database", "marker-parse"}, Floor: 2}, {ID: "PD", Not: []string{"heap-emptied"}, Floor: 12}, {ID: "R2", Scope: []string{"internal/aof"}, Floor: 2},
+			{ID: "X3", Scope: []string{"internal.FilterExpiredKeys"}, Floor: 2}, {ID: "N4"}, {ID: "N5"}},
 	})
 }
 
